@@ -54,7 +54,7 @@ pub fn seed(name: &str) -> Vec<Ev> {
     }
 }
 
-fn run_models(run: &Run, models: Vec<(TowerModel, usize)>, total_budget: Duration) {
+pub fn run_models(run: &Run, models: Vec<(TowerModel, usize)>, total_budget: Duration) {
     let started = std::time::Instant::now();
     let (grid, searches): (Vec<_>, Vec<_>) = models.into_iter().partition(|(_, d)| *d == 0);
     let mut all = Vec::new();
@@ -555,4 +555,58 @@ pub fn c06(tier: Tier) -> i32 {
     run.set("forged_requests", json!(crate::tmodel::FORGED_REQUESTS.load(std::sync::atomic::Ordering::Relaxed)));
     run.assume("a mutated signature never recovers to a registered key by chance (probability ~2^-250)");
     run.finish()
+}
+
+/// The sequential half of C11: no history makes a handler or the chain loop panic.
+pub fn c11_sequential(run: &Run, tier: Tier, budget_s: u64) {
+    let mut models = c01_models(tier, vec!["C11"]);
+    let add = |u, k, b| Ev::Add { user: u, disp: k, blob: b, tsd: 42 };
+    let mine = |txs: Vec<TxName>| Ev::MineP(MineSel::Txs(txs));
+    // resubmission of an appointment in every lifecycle state
+    let lifecycle: Vec<(&str, TowerCfg, Vec<Ev>)> = vec![
+        ("watched", cfg(3, 400, 6), seed("S1")),
+        ("responded-mempool", cfg(3, 400, 6), seed("S3")),
+        ("responded-confirmed", cfg(3, 400, 6), seed("S4")),
+        ("completed", cfg(3, 400, 6), {
+            let mut s = seed("S5");
+            s.push(Ev::Advance(2));
+            s
+        }),
+        ("dropped-invalid", cfg(3, 400, 6), vec![Ev::Register(1), add(1, 1, Blob::Raw(40)), mine(vec![TxName::D(1)])]),
+        ("dropped-refused", cfg(3, 400, 6), vec![Ev::Register(1), add(1, 1, Blob::Bad), mine(vec![TxName::D(1)])]),
+        ("penalty-already-in-chain", cfg(3, 400, 6), vec![Ev::Register(1), add(1, 1, Blob::Valid), mine(vec![TxName::D(1), TxName::P(1)])]),
+        ("owner-expired", cfg(3, 2, 3), vec![Ev::Register(1), add(1, 1, Blob::Valid), Ev::Advance(2)]),
+        ("owner-purged", cfg(3, 2, 1), vec![Ev::Register(1), add(1, 1, Blob::Valid), Ev::Advance(3)]),
+        ("stale-unconfirmed-then-confirmed-ahead", cfg(3, 400, 6), {
+            // tracker unconfirmed for 6 blocks, penalty confirmed in the block after: one poll
+            let mut s = seed("S3");
+            for _ in 0..5 {
+                s.push(Ev::Mine(MineSel::Empty));
+            }
+            s.push(Ev::Mine(MineSel::Mempool));
+            s
+        }),
+    ];
+    for (label, c, sd) in lifecycle {
+        let mut a = Alphabet::basic();
+        a.users = vec![1, 2];
+        a.disps = vec![1];
+        a.blobs = vec![(Blob::Valid, false), (Blob::Alt, false), (Blob::Raw(40), false), (Blob::Bad, false), (Blob::Large, false)];
+        a.max_registers_per_user = 2;
+        a.max_adds = 6;
+        a.split_poll = true;
+        a.mine_empty = true;
+        a.mine_mempool = true;
+        a.mine_dispute = true;
+        a.mine_dispute_and_penalty = true;
+        a.reorgs = vec![(1, Replacement::Same), (1, Replacement::Unconfirm), (2, Replacement::ConflictPenalty)];
+        a.bulk_advances = vec![7];
+        a.restart = true;
+        a.max_deviations = 1;
+        models.push((
+            TowerModel { label: format!("C11/lifecycle/{label}"), cfg: c, seed: sd, alphabet: a, props: vec!["C11"], probe: true, forgery: None },
+            if tier == Tier::Quick { 2 } else { 4 },
+        ));
+    }
+    run_models(run, models, Duration::from_secs(budget_s));
 }
